@@ -4,6 +4,7 @@ import (
 	"fmt"
 	"io"
 	"net"
+	"time"
 
 	"github.com/cbeuw/Cloak/internal/common"
 	mux "github.com/cbeuw/Cloak/internal/multiplex"
@@ -21,6 +22,12 @@ type StreamPlan struct {
 	ReadBuf    int    `json:"read_buf"`
 	ViaCopyW   bool   `json:"via_copy_w,omitempty"` // opener writes through common.Copy -> Stream.ReadFrom
 	ViaCopyR   bool   `json:"via_copy_r,omitempty"` // acceptor side relays through common.Copy to a local conn
+	// timer phases: the opener waits StartMS (virtual) before opening, both
+	// writers pause PauseMS once half-way, and the opener closes the stream when
+	// it has written and read everything
+	StartMS    int  `json:"start_ms,omitempty"`
+	PauseMS    int  `json:"pause_ms,omitempty"`
+	CloseAfter bool `json:"close_after,omitempty"`
 }
 
 type C01Scenario struct {
@@ -97,6 +104,20 @@ func genC01(g *Gen) any {
 		}
 		return sc
 	}
+	if g.Bool(0.08) {
+		// timer phases: the session goes idle (its only stream is closed), then
+		// new streams are opened before the inactivity timeout and stay busy,
+		// with pauses, well beyond it: a session with open streams keeps working
+		T := g.Pick(2, 10, 30)
+		sc.Sess = SessParams{Method: byte(g.Int(0, 3)), NConn: g.Int(1, 4), InactS: T, Partial: g.Bool(0.5)}
+		sc.Streams = []StreamPlan{{SizeClass: g.Int(1, 4), SizeSeed: g.Rng.Uint64(), ReadBuf: 16384, Up: g.Int(1, 3000), Down: g.Int(0, 3000), CloseAfter: true}}
+		k := g.Int(1, 3)
+		for i := 0; i < k; i++ {
+			sc.Streams = append(sc.Streams, StreamPlan{SizeClass: g.Int(1, 4), SizeSeed: g.Rng.Uint64(), ReadBuf: 16384, Up: g.Int(2, 5000), Down: g.Int(0, 5000),
+				StartMS: T * g.Pick(100, 500, 900, 999), PauseMS: T * g.Pick(600, 1100, 2500), CloseAfter: g.Bool(0.3)})
+		}
+		return sc
+	}
 	sc.Sess = genSessParams(g, 8)
 	maxStreams, maxBytes := 6, 30000
 	if g.Tier == "thorough" {
@@ -156,7 +177,12 @@ func (wl *streamWorkload) done() bool {
 func (wl *streamWorkload) writePat(w io.Writer, st *streamState, dir, n int, what string) bool {
 	ss := &sizeSeq{class: st.plan.SizeClass, limit: wl.limit, x: st.plan.SizeSeed + uint64(dir)}
 	off := 0
+	paused := st.plan.PauseMS <= 0
 	for off < n {
+		if !paused && off >= n/2 {
+			paused = true
+			Sleep(time.Duration(st.plan.PauseMS) * time.Millisecond)
+		}
 		k := ss.next()
 		if off+k > n {
 			k = n - off
@@ -220,6 +246,9 @@ func (wl *streamWorkload) relayOutOf(stream net.Conn) net.Conn {
 }
 
 func (wl *streamWorkload) opener(sesh *mux.Session, st *streamState) {
+	if st.plan.StartMS > 0 {
+		Sleep(time.Duration(st.plan.StartMS) * time.Millisecond)
+	}
 	stream, err := sesh.OpenStream()
 	if err != nil {
 		wl.c.Fail("stream-error", "error:open", "OpenStream on a healthy session: %v", err)
@@ -229,14 +258,27 @@ func (wl *streamWorkload) opener(sesh *mux.Session, st *streamState) {
 	if st.plan.ViaCopyW {
 		w = wl.relayInto(stream)
 	}
+	wdone := make(chan struct{})
 	simsync.Go("h:opener-w", func() {
+		defer close(wdone)
 		if _, err := w.Write(putTag(st.tag)); err != nil {
 			wl.c.Fail("stream-error", "error:write", "writing tag: %v", err)
 			return
 		}
 		wl.writePat(w, st, 0, st.plan.Up, "opener")
 	})
-	if wl.readPat(stream, st, 1, st.plan.Down, &st.downRead, "opener") {
+	ok := wl.readPat(stream, st, 1, st.plan.Down, &st.downRead, "opener")
+	if ok && st.plan.CloseAfter && !st.plan.ViaCopyW {
+		// everything was read; once everything is written too and has arrived,
+		// the application is done with this stream
+		Await(wdone)
+		for !st.upDone && !wl.c.Failed() {
+			Sleep(time.Millisecond)
+		}
+		st.harnessClosed = true
+		stream.Close()
+	}
+	if ok {
 		st.downDone = true
 	}
 }
